@@ -436,11 +436,25 @@ def subst_scalar(t, pairs):
     return t
 
 
-def sigma_eq(a, b):
-    """sufficient condition: same number of terms, term k of a matches term k of b with
-    equal index boxes (identity bijection) and equal summands for every index in the box."""
-    if len(a.terms) != len(b.terms):
-        raise Unsupported('Sigma equality with different term counts (%d vs %d)' % (len(a.terms), len(b.terms)))
+def _sigma_groups(s):
+    """group the terms of a Sigma by their index box (bounds compared syntactically after simplification), renaming the bound
+    indices positionally, and add up the summands of each group: sum_k f + sum_k g = sum_k (f + g)"""
+    groups = {}
+    order = []
+    for (bounds, body) in s.terms:
+        key = tuple((z3.simplify(lift(lo).z).sexpr(), z3.simplify(lift(hi).z).sexpr()) for (_v, lo, hi) in bounds)
+        if key not in groups:
+            canon = [SInt(z3.Int(ctx.fresh_name('_sg%d' % k))) for k in range(len(bounds))]
+            groups[key] = [canon, [(lo, hi) for (_v, lo, hi) in bounds], 0]
+            order.append(key)
+        canon = groups[key][0]
+        pairs = [(v.z, c.z) for (v, _lo, _hi), c in zip(bounds, canon)]
+        groups[key][2] = groups[key][2] + subst_scalar(body, pairs)
+    return groups, order
+
+
+def _sigma_eq_positional(a, b):
+    """term k of a matches term k of b with equal index boxes (identity bijection) and equal summands for every index in the box"""
     conds = []
     pl = (a.plain == b.plain)
     conds.append(tobool(pl) if not isinstance(pl, bool) else z3.BoolVal(pl))
@@ -458,6 +472,31 @@ def sigma_eq(a, b):
         eq = (t1 == t2s)
         eqz = tobool(eq) if not isinstance(eq, bool) else z3.BoolVal(eq)
         conds.append(z3.Implies(z3.And(*rng), eqz))
+    return SBool(z3.And(*conds))
+
+
+def sigma_eq(a, b):
+    """sufficient conditions for equality of two formal sums (sound, incomplete: no re-indexing, no splitting of ranges).
+    Same number of terms: positional matching.  Different numbers of terms: add up, in each, the summands that range over the same
+    index box (sum_k f + sum_k g = sum_k (f + g)); both must then have the same boxes and equal total summands on each box.  When
+    the boxes cannot be matched syntactically the comparison is UNSUPPORTED (undecided), never 'different'."""
+    if len(a.terms) == len(b.terms):
+        return _sigma_eq_positional(a, b)
+    ga, oa = _sigma_groups(a)
+    gb, ob = _sigma_groups(b)
+    if set(ga) != set(gb):
+        raise Unsupported('Sigma equality: index boxes of the two sums do not match syntactically (%d vs %d terms)' % (len(a.terms), len(b.terms)))
+    conds = []
+    pl = (a.plain == b.plain)
+    conds.append(tobool(pl) if not isinstance(pl, bool) else z3.BoolVal(pl))
+    for key in oa:
+        ca, boxes, ta = ga[key]
+        cb, _boxes, tb = gb[key]
+        tb = subst_scalar(tb, [(y.z, x.z) for x, y in zip(ca, cb)]) if not isinstance(tb, (int, float, complex)) else tb
+        rng = [z3.And(c.z >= lift(lo).z, c.z < lift(hi).z) for c, (lo, hi) in zip(ca, boxes)]
+        eq = (ta == tb)
+        eqz = tobool(eq) if not isinstance(eq, bool) else z3.BoolVal(eq)
+        conds.append(z3.Implies(z3.And(*rng), eqz) if rng else eqz)
     return SBool(z3.And(*conds))
 
 
